@@ -279,6 +279,9 @@ class InterSystemRecurrenceNetwork(InteractingNetworks):
 
         #  Set diagonal of ISRM to zero to avoid self-loops
         ISRM.flat[::self.N + 1] = 0
+        #  When called on an already constructed network: keep it in step
+        if hasattr(self, "sp_A"):
+            self.adjacency = ISRM
         return ISRM
 
     def set_fixed_recurrence_rate(self, density):
@@ -311,6 +314,9 @@ class InterSystemRecurrenceNetwork(InteractingNetworks):
 
         #  Set diagonal of ISRM to zero to avoid self-loops
         ISRM.flat[::self.N + 1] = 0
+        #  When called on an already constructed network: keep it in step
+        if hasattr(self, "sp_A"):
+            self.adjacency = ISRM
         return ISRM
 
     #
